@@ -122,3 +122,332 @@ impl Drop for Fut {
         }
     }
 }
+
+// ------------------------------------------------------------------ tokens
+
+/// An output value whose drops are counted (C06)
+pub struct Tok {
+    pub id: u8,
+}
+
+impl Tok {
+    pub fn new(id: u8) -> Tok {
+        let gh = g();
+        gh.tok_made[id as usize] = gh.tok_made[id as usize].wrapping_add(1);
+        Tok { id }
+    }
+}
+
+impl Drop for Tok {
+    fn drop(&mut self) {
+        let gh = g();
+        let id = self.id as usize;
+        gh.tok_drops[id] = gh.tok_drops[id].wrapping_add(1);
+        vassert!(gh.tok_drops[id] <= gh.tok_made[id], "C06:output dropped more often than it was produced");
+    }
+}
+
+/// scripted future with a droppable output
+pub struct TFut {
+    pub id: u8,
+    _pin: PhantomPinned,
+}
+
+impl TFut {
+    pub fn new(id: u8) -> Self {
+        TFut { id, _pin: PhantomPinned }
+    }
+}
+
+impl Future for TFut {
+    type Output = Tok;
+    fn poll(self: Pin<&mut Self>, cx: &mut Context<'_>) -> Poll<Tok> {
+        let id = self.id as usize;
+        on_poll_entry(id, &*self as *const TFut as usize);
+        let d = decide();
+        apply_wake_decisions(id, &d, cx);
+        if d.ready {
+            g().done[id] = true;
+            Poll::Ready(Tok::new(self.id))
+        } else {
+            Poll::Pending
+        }
+    }
+}
+
+impl Drop for TFut {
+    fn drop(&mut self) {
+        let id = self.id as usize;
+        let gh = g();
+        gh.drops[id] = gh.drops[id].wrapping_add(1);
+        vassert!(gh.drops[id] == 1, "C06:child dropped twice");
+    }
+}
+
+/// scripted fallible future: `Ok(Tok)` or `Err(id)`
+pub struct RFut {
+    pub id: u8,
+    _pin: PhantomPinned,
+}
+
+impl RFut {
+    pub fn new(id: u8) -> Self {
+        RFut { id, _pin: PhantomPinned }
+    }
+}
+
+impl Future for RFut {
+    type Output = Result<Tok, u8>;
+    fn poll(self: Pin<&mut Self>, cx: &mut Context<'_>) -> Poll<Result<Tok, u8>> {
+        let id = self.id as usize;
+        on_poll_entry(id, &*self as *const RFut as usize);
+        let d = decide();
+        apply_wake_decisions(id, &d, cx);
+        if d.ready {
+            let gh = g();
+            gh.done[id] = true;
+            if nd::flag() {
+                gh.failed[id] = true;
+                Poll::Ready(Err(self.id))
+            } else {
+                Poll::Ready(Ok(Tok::new(self.id)))
+            }
+        } else {
+            Poll::Pending
+        }
+    }
+}
+
+impl Drop for RFut {
+    fn drop(&mut self) {
+        let id = self.id as usize;
+        let gh = g();
+        gh.drops[id] = gh.drops[id].wrapping_add(1);
+        vassert!(gh.drops[id] == 1, "C06:child dropped twice");
+    }
+}
+
+// ------------------------------------------------------------ merge sources
+
+/// item of source `id` with sequence number `seq`
+pub fn item(id: u8, seq: u8) -> u8 {
+    (id << 4) | (seq & 15)
+}
+
+/// A scripted source stream for the merges: numbered items, Pending gaps, end.
+pub struct Src {
+    pub id: u8,
+}
+
+impl futures_core::Stream for Src {
+    type Item = u8;
+    fn poll_next(self: Pin<&mut Self>, cx: &mut Context<'_>) -> Poll<Option<u8>> {
+        let id = self.id as usize;
+        on_poll_entry(id, &*self as *const Src as usize);
+        let gh = g();
+        // 0: item, 1: pending, 2: pending + self-wake, 3: end
+        let d = nd::below(4);
+        nd::assume(d != 2 || gh.selfwake_left > 0, "src:selfwake");
+        nd::assume(d != 0 || gh.items_left > 0, "src:items");
+        nd::assume(d != 3 || gh.allow_ready, "src:end");
+        gh.last_answer[id] = d;
+        match d {
+            0 => {
+                gh.items_left -= 1;
+                let s = gh.seq[id];
+                gh.seq[id] = s.wrapping_add(1);
+                Poll::Ready(Some(item(self.id, s)))
+            }
+            3 => {
+                gh.done[id] = true;
+                Poll::Ready(None)
+            }
+            _ => {
+                if d == 2 {
+                    gh.selfwake_left -= 1;
+                    gh::note_child_wake(gh.group_of[id], gh.slot_of[id]);
+                    cx.waker().wake_by_ref();
+                }
+                Poll::Pending
+            }
+        }
+    }
+}
+
+impl Drop for Src {
+    fn drop(&mut self) {
+        let id = self.id as usize;
+        let gh = g();
+        gh.drops[id] = gh.drops[id].wrapping_add(1);
+        vassert!(gh.drops[id] == 1, "C06:source dropped twice");
+    }
+}
+
+// ------------------------------------------------------------ upstreams
+
+/// Scripted upstream of the buffered adapters: yields the futures with
+/// consecutive identities `next_id, next_id+1, ...`, Pending gaps, end; keeps
+/// an honest size_hint around its (ghost) number of remaining items.
+pub struct Up<F> {
+    pub mk: fn(u8) -> F,
+}
+
+pub fn up_poll_common(cx: &mut Context<'_>) -> u8 {
+    let gh = g();
+    vassert!(!gh.up_ended, "C10:upstream polled after it returned None");
+    gh.up_polls += 1;
+    // 0: item, 1: pending, 2: end, 3: error (try streams only)
+    let d = nd::below(4);
+    nd::assume(d != 3 || gh.up_allow_err, "up:err");
+    // honest w.r.t. its ghost remainder: items only while some remain, end
+    // only when none remain, Pending at any time
+    nd::assume(!(d == 0 || d == 3) || gh.up_remaining > 0, "up:honest item");
+    nd::assume(d != 2 || gh.up_remaining == 0, "up:honest end");
+    gh.up_last = d;
+    match d {
+        0 | 3 => {
+            gh.up_remaining -= 1;
+            gh.up_pulled += 1;
+            // the honest hint follows
+            gh.up_hint_lo = gh.up_hint_lo.saturating_sub(1);
+            gh.up_hint_hi = gh.up_hint_hi.saturating_sub(1);
+        }
+        2 => gh.up_ended = true,
+        _ => {
+            // an honest Pending upstream keeps the waker it was polled with
+            gh.up_waker_task = if gh::is_task(cx.waker()) { 1 } else { 2 };
+        }
+    }
+    d
+}
+
+impl<F> futures_core::Stream for Up<F> {
+    type Item = F;
+    fn poll_next(self: Pin<&mut Self>, cx: &mut Context<'_>) -> Poll<Option<F>> {
+        let d = up_poll_common(cx);
+        let gh = g();
+        match d {
+            0 => {
+                let id = gh.up_next_id;
+                gh.up_next_id += 1;
+                Poll::Ready(Some((self.mk)(id)))
+            }
+            2 => Poll::Ready(None),
+            _ => Poll::Pending,
+        }
+    }
+    fn size_hint(&self) -> (usize, Option<usize>) {
+        let gh = g();
+        (gh.up_hint_lo, Some(gh.up_hint_hi))
+    }
+}
+
+/// try-upstream: items are `Ok(future)` or `Err(code)`
+pub struct TryUp<F> {
+    pub mk: fn(u8) -> F,
+}
+
+impl<F> futures_core::Stream for TryUp<F> {
+    type Item = Result<F, u8>;
+    fn poll_next(self: Pin<&mut Self>, cx: &mut Context<'_>) -> Poll<Option<Result<F, u8>>> {
+        let d = up_poll_common(cx);
+        let gh = g();
+        match d {
+            0 => {
+                let id = gh.up_next_id;
+                gh.up_next_id += 1;
+                Poll::Ready(Some(Ok((self.mk)(id))))
+            }
+            3 => {
+                gh.up_errs += 1;
+                Poll::Ready(Some(Err(200)))
+            }
+            2 => Poll::Ready(None),
+            _ => Poll::Pending,
+        }
+    }
+    fn size_hint(&self) -> (usize, Option<usize>) {
+        let gh = g();
+        (gh.up_hint_lo, Some(gh.up_hint_hi))
+    }
+}
+
+/// scripted fallible future with plain outputs: `Ok(id)` / `Err(id)`
+pub struct EFut {
+    pub id: u8,
+    _pin: PhantomPinned,
+}
+
+impl EFut {
+    pub fn new(id: u8) -> Self {
+        EFut { id, _pin: PhantomPinned }
+    }
+}
+
+impl Future for EFut {
+    type Output = Result<u8, u8>;
+    fn poll(self: Pin<&mut Self>, cx: &mut Context<'_>) -> Poll<Result<u8, u8>> {
+        let id = self.id as usize;
+        on_poll_entry(id, &*self as *const EFut as usize);
+        let d = decide();
+        apply_wake_decisions(id, &d, cx);
+        if d.ready {
+            let gh = g();
+            gh.done[id] = true;
+            if nd::flag() {
+                gh.failed[id] = true;
+                Poll::Ready(Err(self.id))
+            } else {
+                Poll::Ready(Ok(self.id))
+            }
+        } else {
+            Poll::Pending
+        }
+    }
+}
+
+impl Drop for EFut {
+    fn drop(&mut self) {
+        let id = self.id as usize;
+        let gh = g();
+        gh.drops[id] = gh.drops[id].wrapping_add(1);
+        vassert!(gh.drops[id] == 1, "C06:child dropped twice");
+    }
+}
+
+/// scripted future with unit output (for_each_concurrent)
+pub struct UFut {
+    pub id: u8,
+    _pin: PhantomPinned,
+}
+
+impl UFut {
+    pub fn new(id: u8) -> Self {
+        UFut { id, _pin: PhantomPinned }
+    }
+}
+
+impl Future for UFut {
+    type Output = ();
+    fn poll(self: Pin<&mut Self>, cx: &mut Context<'_>) -> Poll<()> {
+        let id = self.id as usize;
+        on_poll_entry(id, &*self as *const UFut as usize);
+        let d = decide();
+        apply_wake_decisions(id, &d, cx);
+        if d.ready {
+            g().done[id] = true;
+            Poll::Ready(())
+        } else {
+            Poll::Pending
+        }
+    }
+}
+
+impl Drop for UFut {
+    fn drop(&mut self) {
+        let id = self.id as usize;
+        let gh = g();
+        gh.drops[id] = gh.drops[id].wrapping_add(1);
+        vassert!(gh.drops[id] == 1, "C06:child dropped twice");
+    }
+}
